@@ -812,7 +812,7 @@ TailProbe(m, e) ==
       after == {q \in 1..Len(e.files_after) : e.files_after[q][1] = ck}
   IN
   IF ~isCut /\ ~(x \in ends) THEN Note(m, "tail_probe_boundary_unknown", e)
-  ELSE IF k < m.vbase THEN Note(m, "tail_probe_not_applicable", e)
+  \* (no guard on k: `want` is folded from the journal records physically present, not from the pruned views)
   ELSE IF e.rc = "panic" THEN ViolKeep(m, "C10", "recovery_panicked_on_tail", e, [cut |-> e.cut, zero |-> e.zero, tr |-> e.tr, res |-> e.res])
   ELSE IF ~e.tr /\ incomplete
   THEN \* truncation disabled and the image holds an incomplete or zero tail: open must fail and touch nothing
